@@ -563,6 +563,6 @@ MANIFEST = dict(
          'between or after arrivals and with EOF, connection loss or neither, repeated read(n)/readexactly(n)/readuntil(sep)/readline() return '
          'exactly the reference split of the unchunked data (separators: single, multi-byte spanning a cut, tuples of different lengths, regex), with '
          'IncompleteReadError carrying exactly the remainder; drain() never hangs after resume/loss (also after EOF) and fails when the channel is '
-         'gone; for all 24 orders of stdout/stderr/exit-status/EOF before CLOSE the exit status is recorded and both outputs are complete.',
+         'gone; for all 24 orders of stdout/stderr/exit-status/EOF before CLOSE the exit status is recorded and both outputs are complete, also when the stream buffer limit makes the session pause the channel; a writer paused by the high-water mark is resumed when the buffer drains to the low-water mark.',
     note='of process.py only the file / async-file / stream redirection helpers are covered (stand-in targets); pipes, sockets, process chaining and SSHCompletedProcess collection are not; text '
          'mode decoding is C07; stream lengths <= 12 bytes, <= 3 chunks. Trusted: CrossHair, z3, the loop model, reference splitter in props/C19.py.')
